@@ -33,7 +33,7 @@ type Event struct {
 // Fault describes an injected failure.
 type Fault struct {
 	At   int    // fail the At-th fallible call (1-based); 0 = none
-	Kind string // "error" | "short" (short write/read: half the bytes, nil error for writes, io.ErrUnexpectedEOF for reads)
+	Kind string // "error" | "short" (short write/read: half the bytes, nil error for writes, io.ErrUnexpectedEOF for reads) | "short_ok" (read: fewer bytes, nil error: legal for an io.Reader)
 }
 
 // FS wraps an afero.Fs.
@@ -45,6 +45,8 @@ type FS struct {
 	seq   int
 	Fired bool // the fault was injected
 	name  string
+	// ReadChunk > 0 makes every File.Read return at most that many bytes (legal io.Reader behaviour, not a fault)
+	ReadChunk int
 }
 
 // New wraps inner; name is what Name() reports.
@@ -210,6 +212,18 @@ func (fl *File) Truncate(size int64) error {
 
 func (fl *File) Read(p []byte) (int, error) {
 	seq, fail := fl.fs.point("File.Read", fl.path)
+	if fail && fl.fs.Fault.Kind == "short_ok" {
+		q := p
+		if len(q) > 1 {
+			q = q[:len(q)/2]
+		}
+		n, err := fl.File.Read(q)
+		fl.fs.rec(Event{Seq: seq, Op: "File.Read", Path: fl.path, N: n, Err: "short read without error (injected): " + errStr(err)})
+		return n, err
+	}
+	if !fail && fl.fs.ReadChunk > 0 && len(p) > fl.fs.ReadChunk {
+		p = p[:fl.fs.ReadChunk]
+	}
 	if fail {
 		if fl.fs.Fault.Kind == "short" && len(p) > 1 {
 			n, _ := fl.File.Read(p[:len(p)/2])
